@@ -130,8 +130,8 @@ impl<T: Value> Var<T> {
                     let taken = std::mem::take(delayed);
                     *delayed = f(taken);
                 } else {
-                    let mut stack = t.set_during_stabilisation.borrow_mut();
-                    stack.push(self.erased());
+                    // (not kept borrowed while `f` runs: `f` may write other variables)
+                    t.set_during_stabilisation.borrow_mut().push(self.erased());
                     // we have to clone, because we don't want to mem::take the value
                     // that some nodes might still need to read during this stabilisation.
                     let cloned = (*self.value.borrow()).clone();
@@ -159,8 +159,7 @@ impl<T: Value> Var<T> {
                     let new = f(delayed);
                     std::mem::replace(delayed, new)
                 } else {
-                    let mut stack = t.set_during_stabilisation.borrow_mut();
-                    stack.push(self.erased());
+                    t.set_during_stabilisation.borrow_mut().push(self.erased());
                     let mut cloned = (*self.value.borrow()).clone();
                     let new = f(&mut cloned);
                     let old = std::mem::replace(&mut cloned, new);
@@ -186,8 +185,7 @@ impl<T: Value> Var<T> {
                 if let Some(v) = &mut *v {
                     f(v);
                 } else {
-                    let mut stack = t.set_during_stabilisation.borrow_mut();
-                    stack.push(self.erased());
+                    t.set_during_stabilisation.borrow_mut().push(self.erased());
                     let mut cloned = (*self.value.borrow()).clone();
                     f(&mut cloned);
                     v.replace(cloned);
